@@ -42,6 +42,10 @@ type Policy struct {
 	// dropped and another action), discard the result, then edit that same library value in place
 	// (inside the group: names and action) to this policy and assemble again.
 	WarmEdit bool
+	// Shared makes ToGo lay the name lists, the conditional entries and the condition lists of all
+	// groups out as adjacent windows of one backing array each (spare capacity behind every window
+	// but the last): what a caller gets who slices one table into groups. Same policy, same request.
+	Shared bool
 }
 
 func Hex(s string) string {
@@ -90,6 +94,9 @@ func (p *Policy) Request() string {
 // ToGo builds the library's policy value.
 func (p *Policy) ToGo() seccomp.Policy {
 	out := seccomp.Policy{DefaultAction: seccomp.Action(p.Default)}
+	if p.Shared {
+		return p.toGoShared()
+	}
 	for _, g := range p.Groups {
 		sg := seccomp.SyscallGroup{Action: seccomp.Action(g.Action)}
 		if g.Names != nil {
@@ -102,6 +109,43 @@ func (p *Policy) ToGo() seccomp.Policy {
 					Argument: c.Arg, Operation: seccomp.Operation(c.Op), Value: c.Val})
 			}
 			sg.NamesWithCondtions = append(sg.NamesWithCondtions, n)
+		}
+		out.Syscalls = append(out.Syscalls, sg)
+	}
+	return out
+}
+
+// toGoShared: the same value as ToGo, with every slice a window of a shared array.
+func (p *Policy) toGoShared() seccomp.Policy {
+	out := seccomp.Policy{DefaultAction: seccomp.Action(p.Default)}
+	var names []string
+	var entries []seccomp.NameWithConditions
+	var conds []seccomp.Condition
+	for _, g := range p.Groups {
+		names = append(names, g.Names...)
+		for _, nc := range g.WithConds {
+			entries = append(entries, seccomp.NameWithConditions{Name: nc.Name})
+			for _, c := range nc.Conds {
+				conds = append(conds, seccomp.Condition{Argument: c.Arg, Operation: seccomp.Operation(c.Op), Value: c.Val})
+			}
+		}
+	}
+	ni, ei, ci := 0, 0, 0
+	for _, g := range p.Groups {
+		sg := seccomp.SyscallGroup{Action: seccomp.Action(g.Action)}
+		if g.Names != nil {
+			sg.Names = names[ni : ni+len(g.Names)]
+			ni += len(g.Names)
+		}
+		if len(g.WithConds) > 0 {
+			sg.NamesWithCondtions = entries[ei : ei+len(g.WithConds)]
+			ei += len(g.WithConds)
+			for k, nc := range g.WithConds {
+				if len(nc.Conds) > 0 {
+					sg.NamesWithCondtions[k].Conditions = conds[ci : ci+len(nc.Conds)]
+					ci += len(nc.Conds)
+				}
+			}
 		}
 		out.Syscalls = append(out.Syscalls, sg)
 	}
